@@ -1129,6 +1129,72 @@ def r_leftover_arguments(rule, root=None):
     else:
         rule.bad("leftover|error", "a leftover positional argument must return Err(..)", A.where(SHAPES, c))
 
+
+def r13_builder_exclusion_and_unknown_keys(rule, root=None):
+    """(a) a shape that gets a specialised positional builder (binary, variadic reducer, typed) must not *also* get the
+    all-Dynamic ordered builder of the same arity: Rhai keeps the last registration, and the ordered builder refuses
+    the coercions (number -> constant, array -> union) the specialised one performs.  (b) both map forms reject a key
+    that is not a field of the shape, for every map - a scan that runs only for "large enough" maps lets a misspelt
+    key through whenever a defaulted field is omitted."""
+    fn0 = A.find_fn(SHAPES, "register_shape", root=root)
+    flag = None
+    for i_ in A.find(fn0["body"], "If"):
+        c_ = str(A.ftxt(i_["cond"])).strip("()")
+        m_ = re.fullmatch(r"!(\w+)", c_)
+        if m_ and "build_ordered" in str(A.ftxt(i_["then"])):
+            flag = m_.group(1)
+    if flag is None:
+        rule.lost("`if !skip_ordered_builder { .. build_ordered* .. }` in register_shape")
+    else:
+        rule.ok("the ordered builders are registered only when no specialised builder was (`!%s`)" % flag, file=SHAPES, line=fn0["ln"])
+        fams = ("build_binary", "build_reduce", "build_unique")
+        seen = set()
+        for blk in A.find(fn0["body"], "If"):
+            # innermost-independent: look at top-level ifs of the function body only
+            if not any(A.stmt_expr(s_) is not None and A.strip(A.stmt_expr(s_)) is blk for s_ in A.stmts_of(fn0["body"])):
+                continue
+            regs = set()
+            for c in A.find(blk["then"], "MethodCall"):
+                if c["method"] == "register_fn" and len(c["args"]) == 2:
+                    nm = (A.path_segs(A.strip(c["args"][1])) or [""])[0]
+                    for fam in fams:
+                        if nm.startswith(fam):
+                            regs.add(fam)
+            for m2 in A.find(blk["then"], "Macro"):
+                pass
+            tb = str(A.ftxt(blk["then"]))
+            for fam in fams:
+                if fam in tb:
+                    regs.add(fam)
+            if not regs:
+                continue
+            sets = any(str(A.ftxt(a_["left"])) == flag and str(A.ftxt(a_["right"])) == "true" for a_ in A.find(blk["then"], "Assign"))
+            for fam in sorted(regs):
+                seen.add(fam)
+                if sets:
+                    rule.ok("the block registering %s* switches the ordered builder off" % fam, file=SHAPES, line=blk["ln"])
+                else:
+                    rule.bad("exclusion|%s" % fam, "register_shape registers %s* for a shape without setting `%s = true`: the ordered builder registered afterwards has the same (Dynamic, ..) signature, replaces it, and refuses the coercions it performs (`difference(x, 1)` then fails)" % (fam, flag), A.where(SHAPES, blk))
+        for fam in fams:
+            if fam not in seen:
+                rule.lost("the block of register_shape that registers %s*" % fam)
+    for name in ("build_from_map", "build_transform"):
+        fn = A.find_fn(SHAPES, name, root=root)
+        loops = [l_ for l_ in A.find(fn["body"], "For") if ".keys()" in str(A.ftxt(l_["iter"])) and "is not present" in A.unparse(l_)]
+        if len(loops) != 1:
+            # the iterator spelling
+            its = [c for c in A.find(fn["body"], "MethodCall") if c["method"] in ("find", "any", "all", "try_for_each") and ".keys()" in str(A.ftxt(c["recv"]))]
+            if len(its) == 1 and not [c_ for c_ in (A.enclosing_conds(fn["body"], its[0]) or []) if "keys()" not in c_]:
+                rule.ok("%s rejects a key that is not a field, for every map" % name, file=SHAPES, line=its[0]["ln"])
+            else:
+                rule.lost("the unknown-key scan of %s" % name)
+            continue
+        conds = A.enclosing_conds(fn["body"], loops[0]) or []
+        if conds:
+            rule.bad("unknown-key|%s" % name, "%s scans for keys that are not fields only under `%s`: every map must be scanned - a misspelt key is otherwise dropped silently when a defaulted field is omitted" % (name, conds[-1][:70]), A.where(SHAPES, loops[0]))
+        else:
+            rule.ok("%s rejects a key that is not a field, for every map" % name, file=SHAPES, line=loops[0]["ln"])
+
 def run(ctx):
     r = ctx.rule("R1", "operators and functions are registered to their namesake, both operand orders, operands in source order; comparisons rejected", 69)
     ctx.guarded(r, r1_operator_tables)
@@ -1154,3 +1220,5 @@ def run(ctx):
     ctx.guarded(r, r_vector_operators)
     r = ctx.rule("R12", "positional constructors report every argument no field takes (nothing is silently dropped)", 2)
     ctx.guarded(r, r_leftover_arguments)
+    r = ctx.rule("R13", "a specialised positional builder excludes the ordered one; both map forms reject unknown keys for every map", 6)
+    ctx.guarded(r, r13_builder_exclusion_and_unknown_keys)
